@@ -70,7 +70,7 @@ pub fn run() {
     for ft in ftags {
         for rt in rtags {
             let text = format!(
-                "{ft}\nFeature: f\n  Background:\n    Given bg\n  Scenario: t_plain\n    Given x\n  @wip\n  Scenario: t_wip\n    Given x\n  {rt}\n  Rule: r\n    Scenario: r_plain\n      Given x\n    @wip\n    Scenario: r_wip\n      Given x\n    @slow\n    Scenario: r_slow\n      Given x\n    @smoke\n    Scenario: r_smoke\n      Given x\n"
+                "{ft}\nFeature: f\n  Background:\n    Given bg\n  Scenario: t_plain\n    Given x\n  @wip\n  Scenario: t_wip\n    Given x\n  {rt}\n  Rule: r\n    Scenario: r_plain\n      Given x\n    @wip\n    Scenario: r_wip\n      Given x\n    @slow\n    Scenario: r_slow\n      Given x\n    @smoke\n    Scenario: r_smoke\n      Given x\n  Rule: r2\n    @wip\n    Scenario: q_wip\n      Given x\n    Scenario: q_plain\n      Given x\n"
             );
             let feat = parse_feature(&text);
             for (fname, re, tags) in filters {
